@@ -53,6 +53,7 @@ func init() {
 			{ID: "C01-R25", Title: "operator precedence fixed before advancing (shared with C20-R5)", Floor: 2, Run: c20r5},
 			{ID: "C01-R26", Title: "float operands yield floats", Floor: 2, Run: floatOperandsYieldFloats},
 			{ID: "C01-R27", Title: "the partial flag is for call stages only", Floor: 1, Run: thePartialFlagIsForCallStagesOnly},
+			{ID: "C01-R28", Title: "no ordering by integer subtraction (shared with C15-R4)", Floor: 8, Run: c15r4},
 		},
 	})
 }
